@@ -33,7 +33,6 @@ package ledger
 // Generator profiles (env VERIF_LCORE_PROFILE): c18 money movement, c19 failing groups, c21 min-balance boundaries, c22 assets.
 
 import (
-	"context"
 	"encoding/binary"
 	"errors"
 	"fmt"
@@ -1261,7 +1260,7 @@ func TestVerifLcore(t *testing.T) {
 		seed = seed*131 + uint64(c)
 	}
 	g := &lcGen{r: vh.NewRng(seed), profile: profile, h: h, nonce: 0}
-	cases := vh.Budget(40, 600)
+	cases := vh.Budget(100, 5000)
 	for c := 0; c < cases; c++ {
 		op := g.genesis()
 		out.Emit(op, h.exec(op))
@@ -1307,5 +1306,4 @@ func TestVerifLcore(t *testing.T) {
 			}
 		}
 	}
-	_ = context.Background
 }
